@@ -261,3 +261,20 @@ func waitRows(root string, want []int64, maxWait time.Duration) (map[int64][]Sto
 		time.Sleep(250 * time.Millisecond)
 	}
 }
+
+// vpqTree returns rid -> raw row (column -> value, nulls as nil) for content checks.
+func vpqTree(root string) (map[int64]map[string]any, error) {
+	files, err := vpq.ReadTree(root)
+	if err != nil {
+		return nil, err
+	}
+	out := map[int64]map[string]any{}
+	for _, f := range files {
+		for _, row := range f.Rows {
+			if r, ok := row["rid"].(int64); ok {
+				out[r] = row
+			}
+		}
+	}
+	return out, nil
+}
